@@ -27,6 +27,11 @@ def make_table(seed: int, n: int, order_seed: int | None = None, missing_plan=No
         cols[f'av{k}'] = [1.0 if cols['ch'][i] == k else float(rng.randrange(2)) for i in range(n)]
     cols['u'] = [float(rng.randrange(0, 3)) for _ in range(n)]   # a column few formulas read
     cols['c0_alt'] = [float(rng.randrange(-2, 4)) for _ in range(n)]   # read only by renamed copies of a formula
+    # a selector and a key that only applies when the selector is 1 (otherwise it holds a "not applicable" code that is
+    # no key of the inner dictionary): legal, selections are lazy
+    rng2 = random.Random(seed ^ 0x5e1)
+    cols['sel'] = [float(rng2.randrange(2)) for _ in range(n)]
+    cols['kx'] = [float(rng2.randrange(1, 3)) if cols['sel'][i] == 1.0 else 9.0 for i in range(n)]
     names = list(cols)
     if order_seed is not None:
         random.Random(order_seed).shuffle(names)
@@ -137,6 +142,10 @@ class Gen:
                 elems |= {rng.choice([0.5, 2.25, -1.5, 1.75])}
             return ['in', ['var', rng.choice(INT_COLS)], sorted(elems)]
         if k == 'elem':
+            if rng.random() < 0.25:
+                # nested selection whose inner key is "not applicable" on the rows that do not reach it
+                return ['elem', {'0': s(depth - 1), '1': ['elem', {'1': s(depth - 1), '2': s(depth - 1)}, ['var', 'kx']]},
+                        ['var', 'sel']]
             keys = [1, 2, 3]
             return ['elem', {str(kk): s(depth - 1) for kk in keys}, ['var', 'ch']]
         if k == 'condsum':
